@@ -325,8 +325,12 @@ def specInsert (e : ExtCtr) : List ExtCtr → List ExtCtr
   | [] => [e]
   | x :: xs => if e.name < x.name then e :: x :: xs else if e.name = x.name then e :: xs else x :: specInsert e xs
 
-def specOf (cs : List Ctr) : List ExtCtr :=
-  cs.foldl (fun m c => match ctrExt c with | none => m | some e => specInsert e m) []
+def specStep (m : List ExtCtr) (c : Ctr) : List ExtCtr :=
+  match ctrExt c with
+  | none => m
+  | some e => specInsert e m
+
+def specOf (cs : List Ctr) : List ExtCtr := cs.foldl specStep []
 
 /-- mutateByExtendedResources; `none` = error (annotation not parseable).  reflect.DeepEqual is
     modelled as equality of the parsed specs (a representation-only difference makes the code
